@@ -86,6 +86,10 @@ class Model:
                 self.content[name] = world.sources[text][0]
                 self.owner[name] = "user"
                 self.ver[name] = 0
+        # user-made links to directories of the project: a name that goes through one is the name of the file behind it
+        paths = list(world.rules) + list(world.sources)
+        self.dirlinks = {name: text for name, text in getattr(world, "symlinks", {}).items()
+                         if any(q.startswith(text + "/") for q in paths)}
         for df in world.rules:
             self.variant[df] = None if df in dofiles_absent else 0
             self.ver[df] = 0
@@ -137,12 +141,27 @@ class Model:
         self.owner[df] = "user"
         self.bump(df)
 
+    def canon(self, name):
+        """the name of the file behind `name`: leading components that are links to directories are resolved"""
+        if not self.dirlinks:
+            return name
+        for _ in range(8):
+            for link, text in self.dirlinks.items():
+                if name == link or name.startswith(link + "/"):
+                    import posixpath
+                    name = posixpath.normpath(posixpath.join(posixpath.dirname(link), text) + name[len(link):])
+                    break
+            else:
+                return name
+        return name
+
     # -- rules ---------------------------------------------------------------
     def rule_for(self, name):
         """(dofile, spec) of the first existing candidate, or None."""
+        name = self.canon(name)
         for df, dd, arg1, arg2 in candidates_full(name):
             if df in self.variant and self.variant[df] is not None:
-                return df, self.w.rules[df][self.variant[df]].subst(arg2).rebase(dd, arg1)
+                return df, self.w.rules[df][self.variant[df]].subst(arg2).rebase(dd, arg1, canon=self.canon if self.dirlinks else None)
         return None
 
     def absent_candidates(self, name):
@@ -162,6 +181,7 @@ class Model:
         """Bytes a from-scratch build would give `name`, or FAIL.  With shallow=True the dependencies' *current*
         bytes are used instead of their from-scratch bytes (what an incremental build of `name` produces once its
         dependencies have been brought up to date)."""
+        name = self.canon(name)
         if name in _stack:
             return FAIL
         if shallow and not _top:
@@ -460,6 +480,7 @@ class RefBuild:
     def request_list(self, names, forced=False, parent=None):
         """One redo / redo-ifchange invocation naming `names`, processed left to right."""
         ok = True
+        names = [self.m.canon(d) for d in names]
         for i, d in enumerate(names):
             if d == parent or self.done.get(d) == "running":
                 ok = False   # cyclic request
@@ -486,6 +507,7 @@ class RefBuild:
 
     def request(self, X, forced=False):
         m = self.m
+        X = m.canon(X)
         if X in self.done:
             # `redo X` runs X's script whether or not X was already built (or failed) as a dependency
             # earlier in this run; everything else is built at most once per run
